@@ -272,6 +272,12 @@ func c12(run *core.Run, replay string) {
 				cases = append(cases, &entCase{Codec: codec, Shape: "clusterq", Size: sz, Seed: run.Seed*37 + int64(sd), Prefix: 2 + (q+sd)%12})
 			}
 		}
+		if codec == "RANGE" || codec == "ANS0" || codec == "ANS1" {
+			// exact power-of-two frequencies with a rare symbol after four ordinary ones: the bottom edge of the coder's range
+			for sd := 0; sd < run.Pick(40, 400); sd++ {
+				cases = append(cases, &entCase{Codec: codec, Shape: "rangeedge", Size: []int{32768, 65536, 98304}[sd%3], Seed: run.Seed*43 + int64(sd), Prefix: 2 + sd%11})
+			}
+		}
 		if codec == "HUFFMAN" {
 			// chunk totals exactly equal to the scale the code length limiter renormalises to (2048), many histograms
 			for sd := 0; sd < run.Pick(150, 1500); sd++ {
